@@ -161,10 +161,15 @@ impl<H: Host> Emulator<H> {
     }
 
     pub fn load_snapshot(&mut self, snapshot: Snapshot<impl SnapshotAsset>) -> Result<()> {
-        match snapshot {
+        let result = match snapshot {
             Snapshot::Sna(asset) => snapshot::sna::load(self, asset),
             Snapshot::Szx(asset) => snapshot::szx::load(self, asset),
+        };
+        if result.is_err() {
+            // Failed load may have already replaced a part of the memory
+            self.controller.refresh_memory_dependent_devices();
         }
+        result
     }
 
     pub fn save_snapshot<R>(&mut self, recorder: SnapshotRecorder<R>) -> Result<()>
